@@ -285,7 +285,9 @@ theorem C13.reexpress_at_creation (tms tms' : List Timing) (start start' : DT) (
   have hpn : (Job.build tms start stop delay skip m).pendingTimer.next.inst =
       (Job.build tms' start' stop' delay skip m).pendingTimer.next.inst := hpre.pendingNext
   refine ⟨hidx.1, hidx.2, hpend, hs, hst, rfl, rfl, rfl, rfl, ?_⟩
-  exact pastStop_eq _ _ _ _ hst hpn
+  cases delay
+  · exact pastStop_eq _ _ _ _ hst hs
+  · exact pastStop_eq _ _ _ _ hst hpn
 
 /-! non-vacuity: daily 10:00+02:00 and 08:00Z denote the same instants -/
 example : TimingEq (.daily { h := 10, m := 0, s := 0, us := 0, off := some 7200000000 })
